@@ -70,6 +70,11 @@ def main() -> int:
         return 2
     except Exception:  # noqa: BLE001
         traceback.print_exc()
+        if ctx.violations and "audit" in locals() and "mod" in locals():
+            # violations with concrete replays were already reported before the harness tripped (e.g. over
+            # a nan produced by the broken code): the verdict stands
+            ctx.notes.append("the harness raised after reporting violations: " + traceback.format_exc()[-300:])
+            return ctx.finish(audit, getattr(mod, "TRUSTED", []), getattr(mod, "ASSUMPTIONS", []))
         print(f"MACHINERY-FAULT property={prop}: unexpected exception in the harness", flush=True)
         return 2
 
